@@ -195,3 +195,8 @@ macro_rules! impl_from_bits {
 }
 
 impl_from_bits!(u8, u16, u32, u64, u128);
+
+#[cfg(kani)]
+mod verif_kani {
+    include!(concat!(env!("POULPY_VERIF_KX"), "/bin_fhe/bdd.rs"));
+}
